@@ -29,11 +29,12 @@ structure MkResult where
   spec : List SpecFail := []
   cov : List String := []
 
-def shippedDataSigners : List String := ["sha", "hmac", "hmaccert", "ecc", "ecccert", "rsa", "rsacert"]
-def shippedIntSigners : List String := ["shaint", "hmacint", "eccint", "rsaint", "sha", "hmac", "ecc", "rsa"]
+def shippedDataSigners : List String := ["sha", "hmac", "hmaccert", "ecc", "ecccert", "rsa", "rsacert", "ecc224", "ecc384", "ecc521", "ecccert521"]
+def shippedIntSigners : List String := ["shaint", "hmacint", "eccint", "rsaint", "sha", "hmac", "ecc", "rsa", "eccint224", "eccint384", "eccint521", "ecc521", "ecc384", "ecc224"]
 
 /-- signer token without "@keyname" and ":params" -/
-def sigBase (tok : String) : String := (((tok.splitOn "@").headD tok).splitOn ":").headD tok
+def sigBase (tok : String) : String :=
+  ((((tok.splitOn "@").headD tok).splitOn "~").headD tok |>.splitOn ":").headD tok
 
 def stripCov (s : String) : String :=
   match s.splitOn " cov=" with
@@ -154,7 +155,18 @@ def runMki (f : List String) (got : String) : MkResult :=
       (match implW with
        | some w => if implOk ∧ !Spec.wfInterest w then
            [⟨"wellformed", "interest-" ++ sigBase op.signer, "MakeInterest output is not a well-formed TLV with exact lengths"⟩] else []
-       | none => [])
+       | none => []) ++
+      -- the FinalName the API returns must be the name the returned wire carries
+      (match implOk, implW, kv gt "fn" with
+       | true, some w, some fnTxt =>
+         let carried := (Spec.elements w).bind fun (_, ts) => (Spec.findT ts 7).bind fun t =>
+           (Spec.tlvs t.val).map fun cs => (cs.map fun c => (⟨c.typ, c.val⟩ : Component))
+         match carried with
+         | some n => if Name.toText n ≠ fnTxt then
+             [⟨"final-name", "interest-" ++ sigBase op.signer,
+               s!"EncodedInterest.FinalName {tk fnTxt 200} differs from the name in the returned wire {tk (Name.toText n) 200}"⟩] else []
+         | none => []
+       | _, _, _ => [])
     let mk : Option Mk :=
       match implOk, implW with
       | true, some w =>
